@@ -168,6 +168,34 @@ func (e *Engine) model(st *State, name string, fn *ssa.Function, args []Val, rt 
 		return one(&Opaque{Key: "sprintf(" + valKey(args[0]) + "," + valKey(Tuple(el)) + ")", Type: rt, Fn: "sprintf", Args: append([]Val{args[0]}, el...)})
 	case "(*sync.Once).Do":
 		return one(nil)
+	case "image.NewRGBA", "image.NewNRGBA", "image.NewRGBA64", "image.NewNRGBA64":
+		// a fresh image whose Rect is the argument; pixel storage is a fresh
+		// opaque slice (contract of the image package constructors)
+		pt, ok := rt.(*types.Pointer)
+		if !ok {
+			return nil, false
+		}
+		stt, ok := pt.Elem().Underlying().(*types.Struct)
+		if !ok {
+			return nil, false
+		}
+		c := e.newCell("newimg", pt.Elem())
+		a := &Agg{Type: pt.Elem(), Elems: make([]Val, stt.NumFields())}
+		for i := 0; i < stt.NumFields(); i++ {
+			f := stt.Field(i)
+			switch f.Name() {
+			case "Rect":
+				a.Elems[i] = args[0]
+			case "Pix":
+				base := &Opaque{Key: fmt.Sprintf("newimg#%d.Pix", c.ID), Type: f.Type(), Fn: "newpix"}
+				a.Elems[i] = &SliceVal{Base: base, Lo: formInt(0), Len: e.A.App("len", types.Typ[types.Int], base), Elem: types.Typ[types.Uint8]}
+			default:
+				a.Elems[i] = e.SymVal(fmt.Sprintf("newimg#%d.%s", c.ID, f.Name()), f.Type())
+			}
+		}
+		st.mem[c] = a
+		st.events = append(st.events, Event{Kind: "call", Fn: name, Args: args, Res: &Ptr{Cell: c}, Pos: in.Pos()})
+		return one(&Ptr{Cell: c})
 	case "bytes.NewReader":
 		sl, ok := args[0].(*SliceVal)
 		if !ok {
@@ -378,6 +406,8 @@ func (e *Engine) globalInitVal(g *ssa.Global) (Val, bool) {
 // The loop is replaced by  pos += c*(N - init)  and execution continues at the
 // loop exit. Anything else is reported as not summarised.
 func (e *Engine) summariseLoop(st *State, fr *frame, b *ssa.BasicBlock, ifi *ssa.If, c *BoolVal, depth int) ([]Outcome, bool) {
+	fail := func(why string) ([]Outcome, bool) { e.loopWhy = why; return nil, false }
+	e.loopWhy = ""
 	// recognise the counter
 	var iv *IndVar
 	nphi := 0
@@ -392,19 +422,21 @@ func (e *Engine) summariseLoop(st *State, fr *frame, b *ssa.BasicBlock, ifi *ssa
 		}
 	}
 	if iv == nil || nphi != 1 || iv.Op.String() != "<" {
-		return nil, false
+		return fail(fmt.Sprintf("the loop carries %d variables besides a simple `i < N` counter (a running offset or accumulator makes iterations depend on each other)", nphi-1))
 	}
-	if s, ok := constInt(iv.Step); !ok || s != 1 {
-		return nil, false
+	stepV, okS := e.val(st, fr, iv.Step).(*Form)
+	if !okS {
+		return fail("non-numeric step")
 	}
+	unitStep := stepV.Equal(formInt(1))
 	initV, ok1 := fr.env[iv.Phi].(*Form) // value on first arrival = init
 	limit, ok2 := e.val(st, fr, iv.Limit).(*Form)
 	if !ok1 || !ok2 {
-		return nil, false
+		return fail("non-numeric loop bounds")
 	}
 	first := initV // first counter value seen by the body
 	if iv.PreInc {
-		first = initV.Add(formInt(1))
+		first = initV.Add(stepV)
 	}
 	// interpret one generic iteration
 	e.nextCell++
@@ -412,7 +444,7 @@ func (e *Engine) summariseLoop(st *State, fr *frame, b *ssa.BasicBlock, ifi *ssa
 	stB := st.clone()
 	frB := fr.clone()
 	if iv.PreInc {
-		frB.env[iv.Phi] = k.Sub(formInt(1))
+		frB.env[iv.Phi] = k.Sub(stepV)
 		frB.env[iv.Next] = k
 	} else {
 		frB.env[iv.Phi] = k
@@ -435,22 +467,22 @@ func (e *Engine) summariseLoop(st *State, fr *frame, b *ssa.BasicBlock, ifi *ssa
 		switch outs[i].Kind {
 		case "loopback":
 			if back != nil {
-				return nil, false
+				return fail("the loop body reaches the back edge on more than one path")
 			}
 			back = &outs[i]
 		case "return", "panic":
 			exits = append(exits, outs[i])
 		default:
-			return nil, false
+			return fail("the loop body is not extractable: " + outs[i].Why)
 		}
 	}
 	if back == nil {
-		return nil, false
+		return fail("the loop body never reaches the back edge")
 	}
 	// the iteration may only advance stream positions by constants
 	for c, kBefore := range memBefore {
 		if v, ok := back.St.mem[c]; !ok || valKey(v) != kBefore {
-			return nil, false
+			return fail("the loop body modifies variable " + c.Name + " that outlives the iteration (shared between iterations / workers)")
 		}
 	}
 	var loopStores []Event
@@ -461,14 +493,17 @@ func (e *Engine) summariseLoop(st *State, fr *frame, b *ssa.BasicBlock, ifi *ssa
 			// element store table[f(k)] = g(k): kept as a loop-store fact
 			ptr, _ := ev.Recv.(*Ptr)
 			if ptr == nil || ptr.SymIdx == nil {
-				return nil, false
+				return fail("the loop body stores through " + valKey(ev.Recv) + ", which is not an element indexed by the iteration")
 			}
 			loopStores = append(loopStores, Event{Kind: "loop-store", Fn: "loop-store", Recv: ptr, Args: []Val{k, first, limit, ptr.SymIdx, ev.Args[0]}, Pos: ev.Pos})
+		case "loop-store", "loop-call", "loop-invoke", "loop-summary":
+			// facts of an inner loop pass through unchanged
+			loopStores = append(loopStores, ev)
 		case "call", "invoke":
 			// calls inside the generic iteration are recorded with the iteration variable
 			loopStores = append(loopStores, Event{Kind: "loop-" + ev.Kind, Fn: ev.Fn, Recv: ev.Recv, Args: append([]Val{k, first, limit}, ev.Args...), Res: ev.Res, Pos: ev.Pos})
 		default:
-			return nil, false
+			return fail("the loop body has an effect of kind " + ev.Kind)
 		}
 	}
 	trips := limit.Sub(first)
@@ -482,10 +517,13 @@ func (e *Engine) summariseLoop(st *State, fr *frame, b *ssa.BasicBlock, ifi *ssa
 			return nil, false
 		}
 		if d != 0 {
+			if !unitStep {
+				return nil, false
+			}
 			st.pos[s] = b0.Add(trips.Mul(formInt(d)))
 		}
 	}
-	st.events = append(st.events, Event{Kind: "loop-summary", Fn: "loop", Args: []Val{first, limit}, Pos: e.condPos(ifi)})
+	st.events = append(st.events, Event{Kind: "loop-summary", Fn: "loop", Args: []Val{first, limit, stepV, k}, Pos: e.condPos(ifi)})
 	st.events = append(st.events, loopStores...)
 	for _, ls := range loopStores {
 		if ls.Kind == "loop-store" {
